@@ -71,6 +71,9 @@ def check_case(ctx, ch, events, engine="large", dm=None):
 
 def shard_main(ctx):
     p = ctx.params
+    if ctx.shard == 0:
+        ctx.replay_witnesses(sys.modules[__name__])
+        ctx.replay_corpus(sys.modules[__name__])
     o = gen.GenOpts()
     ctx.run_hypothesis([gen.charts(o, 'lua'), gen.event_histories()],
                        lambda ch, evs: check_case(ctx, ch, evs), p["examples"], case_repr)
